@@ -3,6 +3,7 @@ errors.check_response (N1), aiotime.sleep (T1), api.request (N2), throttlers.thr
 auth.authenticated + credentials.Vault (N3)."""
 import asyncio
 import collections
+import datetime
 import json
 
 import aiohttp
@@ -537,6 +538,7 @@ def _new_exc(cls, *args):
 @harness('N2', targets='kopf._cogs.clients.api.request', props=['C12'],
          clauses=['retried_kinds', 'attempts_bounded', 'sleep_is_backoff', 'never_less_than_retry_after', 'retry_after_policy',
                   'escalates_at_once', 'session_closed_reauth', 'success_returns_response', 'same_request',
+                  'url_resolved_against_server', 'timeout_explicit_or_configured',
                   'cancellation_propagates', 'one_attempt_per_iteration'],
          canaries=['canary.never_retries', 'canary.never_escalates', 'canary.never_succeeds'],
          trusted=['aiohttp.ClientSession.request: returns a response or raises any exception (representatives of the real '
@@ -551,7 +553,10 @@ def N2(vc):
     -- the claim holds for backoff configurations of ANY length: a scalar, a list of symbolic length and
     content (incl. empty), a non-Sized re-iterable (finite of any length, or infinite).  Ghost: k = number
     of completed attempts at the loop head; invariant k <= len(backoffs).  For the arbitrary k-th iteration:
-      * exactly one request attempt is made, with the caller's method/url/payload/headers/timeout;
+      * exactly one request attempt is made, with the caller's method/payload/headers, the caller's url -- resolved
+        against the context's server if relative (as all call sites pass it), with exactly one '/' in between -- and
+        the caller's timeout, or, if none was given, a ClientTimeout of settings.networking.request_timeout (total)
+        and connect_timeout (sock_connect), as docs/configuration.rst documents;
       * success (check_response passes, contract N1) returns that response, no sleep;
       * a failure is retried (one sleep, then the next attempt) only if it is of a retried kind --
         aiohttp.ClientConnectionError, asyncio.TimeoutError, APIError with status 5xx/403/429 -- and only if
@@ -584,10 +589,19 @@ def N2(vc):
         backoffs = _GhostIterable(vc); n_spec = None
         b_at = lambda k: backoffs.at(k)
     enforce = vc.bool('enforce_retry_after')
+    request_timeout, connect_timeout = Opaque('request_timeout'), Opaque('connect_timeout')
     settings = Opaque('settings', networking=Opaque('networking', error_backoffs=backoffs, enforce_retry_after=enforce,
-                                                    request_timeout=None, connect_timeout=None))
-    method, url = 'patch', 'https://server/apis/kopf.dev/v1/kopfexamples/x'
-    payload, headers, timeout = Opaque('payload'), Opaque('headers'), Opaque('timeout')
+                                                    request_timeout=request_timeout, connect_timeout=connect_timeout))
+    # ---- the request's own parameters: the url as the call sites give it (relative to the server, as built by
+    # Resource.get_url / scanning: '/apis/...') or absolute; an explicit timeout or none (=> the documented
+    # settings.networking.request_timeout/connect_timeout apply).  One form per backoff configuration: these
+    # parameters are prepared before the retry loop, so the forms are not multiplied with the configurations.
+    full_url = 'https://server/apis/kopf.dev/v1/kopfexamples/x'
+    method = 'patch'
+    url, server, timeout = {'scalar': (full_url, 'https://server/', Opaque('timeout')),
+                            'list': ('/apis/kopf.dev/v1/kopfexamples/x', 'https://server/', None),
+                            'iterable': ('apis/kopf.dev/v1/kopfexamples/x', 'https://server', None)}[cfg]
+    payload, headers = Opaque('payload'), Opaque('headers')
     st = {'failure': None, 'response': None, 'checked': None, 'closed': None, 'msg': {}, 'ra': None, 'ra_date': False, 'status': None}
     ghost = {'k': 0, 'phase': 0}
 
@@ -612,7 +626,7 @@ def N2(vc):
                 return st['response']
             st['failure'] = _new_exc(cls, 'x')
             raise st['failure']
-    context = Opaque('context', session=Session(), server='https://server/')
+    context = Opaque('context', session=Session(), server=server)
 
     async def check_response(response):
         vc.emit('check_response', response)
@@ -771,7 +785,15 @@ def N2(vc):
     for r in reqs:
         kw = r[1]
         vc.ensure('same_request', set(kw) == {'method', 'url', 'json', 'headers', 'timeout'} and kw['method'] == method
-                  and kw['url'] == url and kw['json'] is payload and kw['headers'] is headers and kw['timeout'] is timeout)
+                  and kw['json'] is payload and kw['headers'] is headers)
+        # a url relative to the server/api root (what every call site passes) is requested from the context's server
+        vc.ensure('url_resolved_against_server', kw['url'] == full_url)
+        if timeout is not None:
+            vc.ensure('timeout_explicit_or_configured', kw['timeout'] is timeout)
+        else:       # docs/configuration.rst: request_timeout = the whole request, connect_timeout = the (socket) connect
+            t = kw['timeout']
+            vc.ensure('timeout_explicit_or_configured', isinstance(t, aiohttp.ClientTimeout)
+                      and t.total is request_timeout and t.sock_connect is connect_timeout)
     if cancelled[0] is not None:
         vc.ensure('cancellation_propagates', escaped is cancelled[0])
         return ('cancelled',)
@@ -1043,7 +1065,8 @@ class _OtherError(Exception):
          props=['C12'],
          clauses=['explicit_context_passthrough', 'calls_with_fresh_context', 'reauth_on_401', 'others_at_once',
                   'invalidate_removes_only_identical', 'invalidated_remembered', 'blocks_until_reauthenticated',
-                  'login_error_if_still_empty', 'invalid_not_readmitted', 'select_from_current', 'populate_releases_waiters'],
+                  'login_error_if_still_empty', 'invalid_not_readmitted', 'select_from_current', 'populate_releases_waiters',
+                  'invalidated_session_closed', 'expiration_tracked'],
          canaries=['canary.never_reauthenticates', 'canary.always_removes', 'canary.always_admits'],
          trusted=['asyncio.Condition by contract (lock; wait_for returns only when its predicate holds; other tasks run while it waits)',
                   'Vault.extended()/_items() as an async iterator of (key, info, context) triples: by contract, see N3 docstring',
@@ -1063,17 +1086,20 @@ def N3(vc):
     (b) Vault.invalidate(key, info, exc) on a vault of <= 2 keys and a per-key history of <= 3 (BOUNDED in the
         vault size; the method only touches `key`'s entries): the item is removed iff it is the *identical*
         info (`is`; an equal re-added copy stays); the removed item is remembered as the newest of at most 3;
-        other keys are untouched; only when nothing is left, `_ready := False`, waiters are notified (under the
+        other keys are untouched; the cached objects (sessions) of the removed item -- and of no other -- are
+        flushed (closed); only when nothing is left, `_ready := False`, waiters are notified (under the
         lock) and the call blocks until the authenticator has made the vault ready again; if it is still empty
         then and an exception was given, LoginError(from that exception) is raised.
-    (c) Vault._update_converted: credentials equal to a remembered invalid one are not (re-)admitted.
+    (c) Vault._update_converted: credentials equal to a remembered invalid one are not (re-)admitted; afterwards
+        `_next_expiration` is not later than the earliest expiration (TZ-naive = UTC) of the current items -- what the
+        documented removal of expired credentials (Vault._expire) relies on.  Vault._update_expiration is inlined.
     (d) Vault.select: hands out only a current item (`_current[key] is item`) of the top priority;
         LoginError iff there is none.      (e) Vault.populate: adds through _update_converted, then sets
         `_ready` and notifies the waiters, under the lock.
     (b)+(c)+(d) give "invalidated credentials are not handed out again" (while remembered: the last 3 per key).
     NOT DECIDED here: "one re-authentication for N concurrent requests" and "all blocked requests proceed"
     (a statement over concurrent tasks and Condition wake-ups), Vault._items/extended themselves (async
-    generators around the same Condition), expiration.
+    generators around the same Condition), Vault._expire (the removal of expired credentials itself).
     """
     scenario = ['authenticated', 'invalidate', 'update_converted', 'select', 'populate'][vc.nondet(5, 'scenario')]
     return {'authenticated': _n3_authenticated, 'invalidate': _n3_invalidate, 'update_converted': _n3_update,
@@ -1239,9 +1265,23 @@ class _VaultState:
 
     def _update_expiration(self):
         self.vc.emit('update_expiration')
+        credentials.Vault._update_expiration(self)      # the real 6-line helper, inlined (concrete datetimes only)
 
     def _update_converted(self, src):
         self.vc.emit('update_converted', src, self._guard.held)
+
+
+def _utc(dt):
+    return dt if dt.tzinfo is not None else dt.replace(tzinfo=datetime.timezone.utc)     # "TZ-naive (implies UTC)"
+
+
+def spec_expiration_tracked(v):
+    """What the discarding of expired credentials (docs/authentication.rst: "credentials that have reached their
+    expiration are ignored and removed"; Vault._expire looks at the items only once `_next_expiration` is reached)
+    needs from every method that changes `_current`: `_next_expiration` is not later than the earliest expiration
+    among the current items.  (An earlier value only costs one extra look; it need not be exact.)"""
+    exps = [_utc(x.info.expiration) for x in v._current.values() if x.info.expiration is not None]
+    return not exps or (v._next_expiration is not None and v._next_expiration <= min(exps))
 
 
 def _n3_invalidate(vc):
@@ -1293,6 +1333,10 @@ def _n3_invalidate(vc):
                   and all(x is y for x, y in zip(now_hist[:-1], hist[-(len(now_hist) - 1):] if len(now_hist) > 1 else [])))
     else:
         vc.ensure('invalidated_remembered', len(now_hist) == len(hist) and all(x is y for x, y in zip(now_hist, hist)))
+    # the sessions (cached per item) of the discarded credentials are closed -- requests still running on them fail over
+    # to the new credentials (errors.APISessionClosed) instead of going on with the invalidated ones; nothing else is closed
+    flushed = [ev[1] for ev in tr if ev[0] == 'flush_caches']
+    vc.ensure('invalidated_session_closed', len(flushed) == (1 if removed else 0) and all(x is pre['k'] for x in flushed))
     nothing_left = len(after_removal) == 0
     waited = bool(seen)
     vc.ensure('blocks_until_reauthenticated', waited == nothing_left)
@@ -1320,10 +1364,17 @@ def _n3_update(vc):
     remembered = [[], [a], [b, a], [a, b, credentials.ConnectionInfo(server='https://c')]][vc.nondet(4, 'remembered invalid infos')]
     v._invalid['k'] = [Item(info=i) for i in remembered]
     had = vc.nondet(2, 'key currently present?') == 1
-    old_item = Item(info=b)
+    SOON = datetime.datetime(2030, 1, 1)                                    # TZ-naive (implies UTC)
+    LATER = datetime.datetime(2031, 1, 1, tzinfo=datetime.timezone.utc)     # TZ-aware
+    old_exp = [None, datetime.datetime(2030, 6, 1)][vc.nondet(2, 'expiration of the present item')]
+    old_item = Item(info=b if old_exp is None else credentials.ConnectionInfo(server='https://a', token='t2', priority=5, expiration=old_exp))
     if had:
         v._current['k'] = old_item
-    new = [a, a_copy, b, credentials.ConnectionInfo(server='https://fresh'), 'not-a-KubeContext'][vc.nondet(5, 'incoming info')]
+        v._next_expiration = None if old_exp is None else _utc(old_exp)
+    new = [a, a_copy, b, credentials.ConnectionInfo(server='https://fresh'),
+           credentials.ConnectionInfo(server='https://fresh', expiration=SOON),
+           credentials.ConnectionInfo(server='https://fresh', expiration=LATER),
+           'not-a-KubeContext'][vc.nondet(7, 'incoming info')]
     ld = vc.load('kopf._cogs.structs.credentials', 'Vault._update_converted')
     escaped = None
     try:
@@ -1344,6 +1395,7 @@ def _n3_update(vc):
     if is_remembered:
         vc.ensure('invalid_not_readmitted', v._current.get('k') is (old_item if had else None))
     vc.ensure('invalid_not_readmitted', set(v._current) <= {'k'} and [x.info for x in v._invalid['k']] == remembered)
+    vc.ensure('expiration_tracked', spec_expiration_tracked(v))
     return ('update', admitted)
 
 
